@@ -73,13 +73,15 @@ def body(ck):
         cases.append(lit); cj.append(j)
         ck.case_seen(("dqn", interval, N, K) if (interval > 1 and K >= interval) else None, sample=j); ck.count("dqn_runs"); ck.count("dqn_iterations", K)
     penv = TimeLimit(Pendulum(), 20)
-    sac_cfgs = [(2, True, 0.25), (3, False, 0.005)] if quick else [(1, True, 0.005), (2, True, 0.25), (3, True, 1.0), (2, False, 0.005), (3, False, 0.25)]
-    for freq, autotune, tau in sac_cfgs:
+    # num_steps > 1 with a common factor with policy_frequency matters: the gate must count iterations, not environment steps
+    sac_cfgs = ([(2, True, 0.25, 2), (3, False, 0.005, 1), (4, True, 0.25, 2)] if quick else
+                [(1, True, 0.005, 1), (2, True, 0.25, 2), (3, True, 1.0, 3), (2, False, 0.005, 4), (3, False, 0.25, 1), (4, True, 0.25, 2), (2, True, 0.5, 3)])
+    for freq, autotune, tau, nsteps in sac_cfgs:
         K = int(rng.integers(5, 8))
-        algo = SAC(buffer_size=128, learning_starts=8, num_envs=2, num_steps=1, batch_size=4, tau=tau, policy_frequency=freq, autotune=autotune,
+        algo = SAC(buffer_size=128, learning_starts=8, num_envs=2, num_steps=nsteps, batch_size=4, tau=tau, policy_frequency=freq, autotune=autotune,
                    q_width_size=8, q_depth=1, policy_lr=1e-2, q_lr=1e-2)
         pol = MLPSACPolicy(env=penv, key=jr.key(int(rng.integers(0, 1000))), feature_size=8, width_size=8, depth=1)
-        ck.current_case = {"algo": "SAC", "policy_frequency": freq, "autotune": autotune, "tau": tau, "K": K}
+        ck.current_case = {"algo": "SAC", "policy_frequency": freq, "autotune": autotune, "tau": tau, "num_steps": nsteps, "K": K}
         st = algo.reset(penv, pol, key=jr.key(2), callback=cb)
         it = eqx.filter_jit(lambda s, k: algo.iteration(s, key=k, callback=cb))
         obs = []
@@ -95,7 +97,7 @@ def body(ck):
                         pol_ok = False
             obs.append((int(st.iteration_count), pol_ok, not same(st.policy, prev.policy), not np.array_equal(np.asarray(st.log_alpha), np.asarray(prev.log_alpha))))
         lit = f"CSac {freq}%nat {bl(autotune)} {listl('(' + zl(c) + ', ' + bl(a) + ', ' + bl(b) + ', ' + bl(d) + ')' for c, a, b, d in obs)}"
-        j = {"algo": "SAC", "policy_frequency": freq, "autotune": autotune, "tau": tau, "iterations": K, "impl[count,polyak_ok,actor_changed,alpha_changed]": obs}
+        j = {"algo": "SAC", "policy_frequency": freq, "autotune": autotune, "tau": tau, "num_steps": nsteps, "iterations": K, "impl[count,polyak_ok,actor_changed,alpha_changed]": obs}
         cases.append(lit); cj.append(j)
         ck.case_seen(("sac", freq, autotune, tau) if (freq > 1 and K > freq) else None, sample=j); ck.count("sac_runs"); ck.count("sac_iterations", K)
     # learn(): number of records and cumulative steps
